@@ -103,6 +103,13 @@ def _work(job):
 def discharge(obs, timeout=60, jobs=None, observe=None, progress=None):
     """obs: list of Obligation (status None => pending). Fills status/backend/time/model."""
     jobs = jobs or JOBS
+    # solver budgets are wall-clock: when the machine is oversubscribed (several checks side by side) they are stretched by the
+    # load per core, so that a verdict does not flip from discharged to undecided just because the cores are shared
+    try:
+        scale = min(8.0, max(1.0, os.getloadavg()[0] / (os.cpu_count() or 1)))
+    except OSError:
+        scale = 1.0
+    timeout = timeout * scale
     pending = [(i, o) for i, o in enumerate(obs) if o.status is None]
     work = []
     for i, o in pending:
@@ -120,7 +127,7 @@ def discharge(obs, timeout=60, jobs=None, observe=None, progress=None):
                 int_text = to_smt2(asm, g)
             except Exception as e:   # translation is best effort
                 int_text = None
-        work.append((i, text, o.info.get('timeout', timeout), True, int_text))
+        work.append((i, text, o.info.get('timeout', timeout) * (scale if 'timeout' in o.info else 1.0), True, int_text))
         o.smt2 = text
     if not work:
         return
